@@ -160,7 +160,7 @@ func vEqStrings(a, b []string) bool {
 	return ok
 }
 
-// verif: unwind=6 strlen=8 also=C19 paths=60000
+// verif: unwind=6 strlen=8 also=C19 paths=300000
 func vh_C07_request() {
 	n0 := ndChoice("name0", 2)
 	if verifThorough() {
